@@ -18,7 +18,9 @@ PROPS = ['C05', 'C07', 'C09', 'C11', 'C12', 'C13', 'C14', 'C18', 'C19', 'C20']
 
 
 def batch(prop, seed, jobs, hashseed, runs, path):
-    env = dict(os.environ, VERIF_SEED=str(seed), PYTHONHASHSEED=str(hashseed), VERIF_DUMP_DIGESTS=path)
+    env = dict(os.environ, VERIF_SEED=str(seed), PYTHONHASHSEED=str(hashseed), VERIF_DUMP_DIGESTS=path,
+               VERIF_EVIDENCE_DIR=os.path.join(os.path.dirname(path), 'ev'),
+               VERIF_REPLAY_DIR=os.path.join(os.path.dirname(path), 'rp'))
     p = subprocess.run(['/venv/bin/python', os.path.join(VERIF, 'check.py'), 'run', prop, '--runs', str(runs),
                         '--jobs', str(jobs)], capture_output=True, text=True, env=env)
     if p.returncode != 0:
@@ -33,8 +35,6 @@ def main():
     total = 0
     bad = 0
     import shutil
-    ev_backup = os.path.join(tmp, 'evidence')
-    shutil.copytree(os.path.join(VERIF, 'evidence'), ev_backup)
     try:
         for prop in PROPS:
             for seed in (0, 11, 12345):
@@ -52,8 +52,6 @@ def main():
                     prop, seed, len(a), "identical" if not diff else "DIFFER at %s" % diff[:5]))
                 sys.stdout.flush()
     finally:
-        shutil.rmtree(os.path.join(VERIF, 'evidence'), ignore_errors=True)
-        shutil.copytree(ev_backup, os.path.join(VERIF, 'evidence'))
         shutil.rmtree(tmp, ignore_errors=True)
     print("digests compared: %d, differing: %d" % (total, bad))
     return 1 if bad else 0
